@@ -273,8 +273,8 @@ type arshalCase struct {
 	Tree  any        `json:"tree"`
 	Proj  [][]any    `json:"proj"`
 	Omit  bool       `json:"omit"`
-	Note  string     `json:"note"` // first error text, for the reader only
-	Swap  bool       `json:"swap"` // the value holds user code that swaps its caller's container (known finding K7)
+	Note  string     `json:"note"`    // first error text, for the reader only
+	Swap  bool       `json:"swap"`    // the value holds user code that swaps its caller's container (known finding K7)
 	ZoneS bool       `json:"zonesec"` // the value holds a time whose zone offset is not a whole number of minutes (K8)
 }
 
